@@ -40,6 +40,10 @@ SINK_CALLS = [
 ]
 
 
+def _sign_losing(r):
+    return bool(re.match(r"^i(8|16|32|64|128|size)$", r.get("from", "")) and re.match(r"^u(8|16|32|64|128|size)$", r["ty"]))
+
+
 def is_carrier(ty):
     return bool(CARRIER.match(ty))
 
@@ -115,13 +119,6 @@ class Taint:
                         ops = [r["o"]]
                     elif r["k"] == "bin":
                         ops = [r["a"], r["b"]]
-                        if r["op"] in ("Rem", "BitAnd") :
-                            # x % untainted / x & const : bounded by the other operand
-                            if not (s.op_t(T, r["a"]) and s.op_t(T, r["b"])):
-                                if r["op"] == "Rem" and not s.op_t(T, r["b"]):
-                                    ops = []
-                                if r["op"] == "BitAnd" and (op_is_const(r["a"]) or op_is_const(r["b"])):
-                                    ops = []
                         if r["op"] in ("Lt", "Le", "Gt", "Ge", "Eq", "Ne"):
                             ops = []
                     elif r["k"] == "agg":
@@ -178,7 +175,7 @@ class Taint:
                     elif c in s.prog.bodies:
                         pass
                     else:
-                        if UNTAINT.search(f) or BOUNDING.search(f) and not all(argt[:2]):
+                        if UNTAINT.search(f):
                             origin = None
                         else:
                             origin = next(o for o in argt if o)
@@ -277,62 +274,103 @@ class Taint:
                         return True
         return False
 
-    def bounds_at(s, b, bb, o):
-        """bounds established for the operand's value on every path reaching block bb:
-        subset of {"hi","lo","rel"} ("rel": compared with another value derived from the same
-        input, e.g. start <= end). Unsigned types have lo for free; values that went through
-        min/%/checked/saturating count as fully bounded."""
+    # ---- value bounds: a small abstract interpretation over {hi, lo, nonneg, neg, nonzero, rel} ---
+    def copy_roots(s, b, o):
+        """locals holding the same value (copies, refs, unwraps, `?`, widening casts): no arithmetic"""
         if op_is_const(o):
-            return {"hi", "lo"}
-        out = set()
-        pl = op_place(o)
-        ty = b.locals[pl["l"]].lstrip("&")
-        if re.match(r"^(mut )?u(8|16|32|64|128|size)$", ty):
-            out.add("lo")
-        if s.sanitised(b, o):
-            return {"hi", "lo"}
-        RP = s.roots_parity(b, o)
-        R = set(RP)
-        # widening from a narrow unsigned type bounds the value for arithmetic in the wider type
+            return set()
+        seen = set(); st = [op_place(o)["l"]]
         defs = prov.build_defs(b)
-        for l in R:
+        while st:
+            l = st.pop()
+            if l in seen:
+                continue
+            seen.add(l)
             for kind, bbi, x in defs.get(l, ()):
-                if kind == "stmt" and x["r"]["k"] == "cast" and re.match(r"^u(8|16|32)$", x["r"].get("from", "")) and re.match(r"^(u64|usize|i64|u128|i128)$", x["r"]["ty"]):
-                    out |= {"hi", "lo"}
-        # value = untainted - root with root unsigned: bounded above by the untainted minuend
-        for l, par in RP.items():
-            if par == 1 and re.match(r"^&?(mut )?u(8|16|32|64|128|size)$", b.locals[l]) and l in s.tainted.get(b.fn, {}):
-                out.add("hi")
+                if kind == "stmt":
+                    r = x["r"]
+                    if r["k"] == "use" and not op_is_const(r["o"]):
+                        st.append(op_place(r["o"])["l"])
+                    elif r["k"] == "cast" and not op_is_const(r["o"]) and not _sign_losing(r):
+                        st.append(op_place(r["o"])["l"])
+                    elif r["k"] == "ref":
+                        st.append(r["p"]["l"])
+                    elif r["k"] == "agg" and r["a"] in ("std::option::Option::Some", "std::result::Result::Ok") and r["o"] and not op_is_const(r["o"][0]):
+                        st.append(op_place(r["o"][0])["l"])
+                elif kind == "call":
+                    f = x["f"] or ""
+                    if (prov.PASS_THROUGH.search(f) and not re.search(r"HashMap|Mutex|RwLock", f)) and x["a"] and not op_is_const(x["a"][0]):
+                        st.append(op_place(x["a"][0])["l"])
+        return seen
+
+    def sum_locals(s, b, R):
+        """locals holding an unsigned sum (+, checked_add, saturating_add) one of whose addends is in R"""
+        out = set()
+        # forward copies of the value
+        R = set(R)
+        changed = True
+        while changed:
+            changed = False
+            for bb in b.bbs:
+                for st in bb["s"]:
+                    if st["k"] == "=" and not st["l"]["p"] and st["r"]["k"] == "use" and not op_is_const(st["r"]["o"]) and \
+                       op_place(st["r"]["o"])["l"] in R and not op_place(st["r"]["o"])["p"] and st["l"]["l"] not in R:
+                        R.add(st["l"]["l"]); changed = True
+        for i, bb in enumerate(b.bbs):
+            for st in bb["s"]:
+                if st["k"] == "=" and st["r"]["k"] == "bin" and st["r"]["op"] in ("Add", "AddWithOverflow") and not st["l"]["p"]:
+                    if (op_local(st["r"]["a"]) in R) or (op_local(st["r"]["b"]) in R):
+                        out.add(st["l"]["l"])
+            t = bb["t"]
+            if t["k"] == "call" and re.search(r"::(checked_add|saturating_add)$", t["f"] or "") and re.search(r"impl u(8|16|32|64|128|size)>", t["f"] or ""):
+                if any(op_local(a) in R for a in t["a"]):
+                    out.add(t["d"]["l"])
+        return out
+
+    def cmp_bounds(s, b, bb, R):
+        """bounds on the value held in locals R established by the comparisons that control bb"""
+        out = set()
+        if not R:
+            return out
         for g, gb in enumerate(b.bbs):
             t = gb["t"]
             if t["k"] != "switch":
                 continue
             dl = op_local(t["d"])
-            cmp_ = None      # (op, a_is_ours, b_is_ours)
-            cmp_const = None; cmp_par = 0
+            cmp_ = None; cmp_const = None
+            neg = False
+            for st in gb["s"]:
+                if st["k"] == "=" and st["l"]["l"] == dl and st["r"]["k"] == "un" and st["r"]["op"] == "Not":
+                    dl = op_local(st["r"]["o"]); neg = True
             for st in gb["s"]:
                 if st["k"] == "=" and st["l"]["l"] == dl and st["r"]["k"] == "bin" and st["r"]["op"] in ("Lt", "Le", "Gt", "Ge", "Eq", "Ne"):
-                    ra = s.roots(b, st["r"]["a"]) & R; rb = s.roots(b, st["r"]["b"]) & R
+                    ra = s.copy_roots(b, st["r"]["a"]) & R; rb = s.copy_roots(b, st["r"]["b"]) & R
                     cmp_ = (st["r"]["op"], bool(ra), bool(rb))
-                    cmp_const = const_int(st["r"]["b"]) if ra else const_int(st["r"]["a"])
-                    cmp_par = max([RP[x] for x in (ra or rb)] or [0])
-            neg = False
+                    other = st["r"]["b"] if ra else st["r"]["a"]
+                    cmp_const = const_int(other)
+                    if not (ra and rb) and (ra or rb) and s.op_t(s.tainted.get(b.fn, {}), other):
+                        # compared with another client value: relational knowledge only
+                        cmp_ = (st["r"]["op"], True, True)
             if cmp_ is None:
-                for st in gb["s"]:
-                    if st["k"] == "=" and st["l"]["l"] == dl and st["r"]["k"] == "un" and st["r"]["op"] == "Not":
-                        dl = op_local(st["r"]["o"]); neg = True
                 for p_ in b.preds()[g]:
                     pt = b.term(p_)
                     if pt["k"] == "call" and pt["d"]["l"] == dl:
                         m = re.search(r"::(lt|le|gt|ge|eq|ne|is_nan|is_finite|is_infinite|is_negative|is_sign_negative|contains)$", pt["f"] or "")
                         if m:
-                            ours = [bool(s.roots(b, a) & R) for a in pt["a"]]
+                            ours = [bool(s.copy_roots(b, a) & R) for a in pt["a"]]
                             nm = m.group(1)
                             if nm in ("lt", "le", "gt", "ge", "eq", "ne") and len(ours) == 2:
                                 cmp_ = (nm.capitalize(), ours[0], ours[1])
                             elif any(ours):
                                 cmp_ = (nm, True, False)
             if cmp_ is None or not (cmp_[1] or cmp_[2]):
+                # switchInt directly on the value: `match x { 0 => .., _ => .. }`
+                if dl in R and b.locals[dl] not in ("bool",):
+                    for v, tgt in t["ts"]:
+                        if bb in cfg.edge_dom_set(b, g, tgt):
+                            out |= {"hi", "lo"} | ({"nonneg"} if v >= 0 else {"neg"}) | ({"nonzero"} if v != 0 else set())
+                    if 0 in dict(t["ts"]) and bb in cfg.edge_dom_set(b, g, t["o"]) and len(t["ts"]) == 1:
+                        out.add("nonzero")
                 continue
             zero = dict(t["ts"]).get(0)
             tru, fal = t["o"], zero
@@ -349,41 +387,188 @@ class Taint:
                         out |= {"hi", "lo"}
                     continue
                 if op in ("is_nan", "is_infinite"):
-                    if not truth:
-                        out.add("finite-part")
                     continue
                 if op in ("is_negative", "is_sign_negative"):
-                    if not truth:
-                        out.add("lo")
+                    out |= ({"hi", "neg"} if truth else {"lo", "nonneg"})
                     continue
                 if op == "contains":
                     if truth:
                         out |= {"hi", "lo"}
                     continue
-                # normalise to "ours OP other"
                 if ob and not oa:
                     op = {"Lt": "Gt", "Le": "Ge", "Gt": "Lt", "Ge": "Le", "Eq": "Eq", "Ne": "Ne"}[op]
-                if truth:
-                    eff = {"Lt": {"hi"}, "Le": {"hi"}, "Gt": {"lo"}, "Ge": {"lo"}, "Eq": {"hi", "lo"}, "Ne": set()}[op]
-                else:
-                    eff = {"Lt": {"lo"}, "Le": {"lo"}, "Gt": {"hi"}, "Ge": {"hi"}, "Eq": set(), "Ne": {"hi", "lo"}}[op]
-                eff = set(eff)
-                # sign knowledge from comparisons with 0 / -1 / 1
+                eop = op if truth else {"Lt": "Ge", "Le": "Gt", "Gt": "Le", "Ge": "Lt", "Eq": "Ne", "Ne": "Eq"}[op]
+                out |= {"Lt": {"hi"}, "Le": {"hi"}, "Gt": {"lo"}, "Ge": {"lo"}, "Eq": {"hi", "lo"}, "Ne": set()}[eop]
                 if cmp_const is not None:
-                    eop = op if truth else {"Lt": "Ge", "Le": "Gt", "Gt": "Le", "Ge": "Lt", "Eq": "Ne", "Ne": "Eq"}[op]
                     if (eop == "Lt" and cmp_const <= 0) or (eop == "Le" and cmp_const < 0):
-                        eff.add("neg")
-                    if (eop == "Ge" and cmp_const >= 0) or (eop == "Gt" and cmp_const >= -1):
-                        eff.add("nonneg")
-                    if eop in ("Gt",) and cmp_const >= 0 or eop == "Ge" and cmp_const >= 1 or eop == "Ne" and cmp_const == 0:
-                        eff.add("nonzero")
-                if cmp_par == 1:
-                    flip = {"hi": "lo", "lo": "hi", "neg": "pos", "nonneg": "nonpos"}
-                    eff = {flip.get(x, x) for x in eff}
-                elif cmp_par == 2:
-                    eff = set()
-                out |= eff
+                        out.add("neg")
+                    if (eop == "Ge" and cmp_const >= 0) or (eop == "Gt" and cmp_const >= -1) or (eop == "Eq" and cmp_const >= 0):
+                        out.add("nonneg")
+                    if (eop == "Gt" and cmp_const >= 0) or (eop == "Ge" and cmp_const >= 1) or (eop == "Ne" and cmp_const == 0) or (eop == "Eq" and cmp_const != 0) or (eop == "Lt" and cmp_const <= 0):
+                        out.add("nonzero")
         return out
+
+    def bounds_at(s, b, bb, o, depth=0, _memo=None):
+        """bounds of the operand's value when control is at block bb"""
+        if op_is_const(o):
+            v = const_int(o)
+            out = {"hi", "lo"}
+            if v is not None:
+                out |= ({"nonneg"} if v >= 0 else {"neg"}) | ({"nonzero"} if v != 0 else set())
+            return out
+        if _memo is None:
+            _memo = {}
+        pl = op_place(o)
+        l = pl["l"]
+        key = (l, bb)
+        if key in _memo:
+            return _memo[key]
+        _memo[key] = set()          # cycle (loop-carried value): nothing known
+        out = set()
+        ty = b.locals[l].lstrip("&")
+        if re.match(r"^(mut )?u(8|16|32|64|128|size)$", ty):
+            out |= {"lo", "nonneg"}
+        tl = s.tainted.get(b.fn, {})
+        if l not in tl and not pl["p"]:
+            # not derived from input at all: trusted quantity (a length, a constant, a counter)
+            if is_carrier(b.locals[l]) :
+                out |= {"hi", "lo"}
+                if s._nonneg_origin(b, l):
+                    out.add("nonneg")
+                _memo[key] = out
+                return out
+        R = s.copy_roots(b, o)
+        out |= s.cmp_bounds(b, bb, R)
+        if re.match(r"^(mut )?u(8|16|32|64|128|size)$", ty) and "hi" not in out:
+            # x <= x + y for unsigned values: an upper bound on a (checked) sum bounds its addends
+            S = s.sum_locals(b, R)
+            if S and "hi" in s.cmp_bounds(b, bb, S):
+                out.add("hi")
+        if depth < 10:
+            defs = prov.build_defs(b).get(l, ())
+            per = []
+            for kind, db, x in defs:
+                per.append(s._def_bounds(b, db, kind, x, depth, _memo))
+            if per:
+                common = set.intersection(*per)
+                out |= common
+        _memo[key] = out
+        return out
+
+    def _nonneg_origin(s, b, l):
+        P = prov.origins(b, l, deep=True)
+        return P.has_call(r"::(len|count|capacity)$") or all(r[0] == "const" for r in P.roots)
+
+    def _def_bounds(s, b, db, kind, x, depth, memo):
+        B = lambda o: s.bounds_at(b, db, o, depth + 1, memo)
+        if kind == "stmt":
+            if x["l"]["p"]:
+                return set()
+            r = x["r"]
+            if r["k"] == "use":
+                return set(B(r["o"]))
+            if r["k"] == "cast":
+                src = set(B(r["o"]))
+                if _sign_losing(r):
+                    # signed -> unsigned: a negative value becomes huge
+                    if "nonneg" in src:
+                        return src
+                    return (src - {"hi"}) | {"lo", "nonneg"}
+                if re.match(r"^u(8|16|32)$", r.get("from", "")) and re.match(r"^(u64|usize|i64|u128|i128|isize)$", r["ty"]):
+                    return src | {"hi", "lo", "nonneg"}
+                if re.match(r"^f(32|64)$", r.get("from", "")):
+                    return {"hi", "lo"} | ({"nonneg"} if r["ty"].startswith("u") else set())   # float->int casts saturate
+                return src
+            if r["k"] == "ref":
+                return set(B({"cp": r["p"]}))
+            if r["k"] == "un" and r["op"] == "Neg":
+                src = B(r["o"])
+                flip = {"hi": "lo", "lo": "hi", "neg": "pos", "nonneg": "nonpos", "pos": "neg", "nonpos": "nonneg"}
+                return {flip.get(k, k) for k in src if k != "rel"}
+            if r["k"] == "bin":
+                a, c = r["a"], r["b"]
+                A, C = B(a), B(c)
+                op = r["op"].replace("WithOverflow", "")
+                if op == "Add":
+                    out = set()
+                    if "hi" in A and "hi" in C:
+                        out.add("hi")
+                    if "lo" in A and "lo" in C:
+                        out.add("lo")
+                    if "nonneg" in A and "nonneg" in C:
+                        out |= {"nonneg", "lo"}
+                    # trusted non-negative quantity + negative input: below the trusted quantity
+                    if ("neg" in C and "hi" in A) or ("neg" in A and "hi" in C):
+                        out.add("hi")
+                    return out
+                if op == "Sub":
+                    out = set()
+                    if "hi" in A and "lo" in C:
+                        out.add("hi")
+                    if "lo" in A and "hi" in C:
+                        out.add("lo")
+                    if "hi" in A and "nonneg" in C:
+                        out.add("hi")
+                    return out
+                if op == "Mul":
+                    return ({"hi", "lo"} if {"hi", "lo"} <= A and {"hi", "lo"} <= C else set()) | ({"nonneg"} if "nonneg" in A and "nonneg" in C else set())
+                if op in ("Rem", "BitAnd"):
+                    if {"hi", "lo"} <= C or {"hi", "lo"} <= A and op == "BitAnd":
+                        return {"hi", "lo"} | ({"nonneg"} if "nonneg" in A or op == "BitAnd" else set())
+                    return set()
+                if op in ("Div", "Shr"):
+                    return set(A)
+                return set()
+            if r["k"] == "agg":
+                if r["a"] in ("tuple", "std::option::Option::Some", "std::result::Result::Ok") or r["a"].startswith("std::ops::Range"):
+                    per = [B(o) for o in r["o"] if not op_is_const(o) and is_carrier(b.locals[op_place(o)["l"]])]
+                    return set.intersection(*per) if per else {"hi", "lo"}
+                return set()
+            return set()
+        # call
+        f = x["f"] or ""
+        args = x["a"]
+        if re.search(r"^std::cmp::min::<|as std::cmp::Ord>::min$", f) and len(args) == 2:
+            A, C = B(args[0]), B(args[1])
+            out = set()
+            if "hi" in A or "hi" in C:
+                out.add("hi")
+            if "lo" in A and "lo" in C:
+                out.add("lo")
+            if "nonneg" in A and "nonneg" in C:
+                out.add("nonneg")
+            return out
+        if re.search(r"^std::cmp::max::<|as std::cmp::Ord>::max$", f) and len(args) == 2:
+            A, C = B(args[0]), B(args[1])
+            out = set()
+            if "lo" in A or "lo" in C:
+                out.add("lo")
+            if "hi" in A and "hi" in C:
+                out.add("hi")
+            if "nonneg" in A or "nonneg" in C:
+                out |= {"nonneg", "lo"}
+            return out
+        if re.search(r"::clamp$", f):
+            return {"hi", "lo"}
+        if re.search(r"::(unsigned_abs|abs)$", f) and args:
+            A = B(args[0])
+            return ({"hi"} if {"hi", "lo"} <= A else set()) | {"lo", "nonneg"}
+        m = re.search(r"::(saturating|wrapping|checked)_(add|sub|mul)$", f)
+        if m and len(args) == 2:
+            fake = {"k": "=", "l": {"l": -1, "p": []}, "r": {"k": "bin", "op": m.group(2).capitalize(), "a": args[0], "b": args[1]}}
+            return s._def_bounds(b, db, "stmt", fake, depth, memo)
+        if UNTAINT.search(f):
+            return {"hi", "lo", "nonneg"}
+        if (prov.PASS_THROUGH.search(f) and not re.search(r"HashMap|Mutex|RwLock", f)) or re.search(r"::(unwrap_or|unwrap_or_default|try_from|from|into)(::<.*>)?$", f):
+            if args and not op_is_const(args[0]) and is_carrier(b.locals[op_place(args[0])["l"]]):
+                return set(B(args[0]))
+            return set()
+        if re.search(r"::(as_secs|as_millis|as_micros|from_secs|from_millis)$", f) and args:
+            return set(B(args[0]))
+        c = callee(x)
+        if c in s.prog.bodies and c in s.scope and 0 not in s.tainted.get(c, {}):
+            return {"hi", "lo"}
+        return set()
 
     def guarded_at(s, b, bb, o, need=("hi", "lo")):
         bd = s.bounds_at(b, bb, o)
@@ -399,28 +584,46 @@ NEED = {
 
 
 def sink_guarded(T, b, bb, o, what, other=None):
-    need = NEED.get(what, ("hi",))
-    other_const = op_is_const(other) if other is not None else None
     bd = T.bounds_at(b, bb, o)
     ty = b.locals[op_place(o)["l"]].lstrip("&") if not op_is_const(o) else ""
     signed = bool(re.match(r"^(mut )?i(8|16|32|64|128|size)$", ty))
-    if need == ("rel-or-lo",):
-        # a - x: x must not exceed a (relational guard); a - CONST needs a lower bound on a
-        return "rel" in bd or ({"hi", "lo"} <= bd) or ("lo" in bd and other_const) or ("hi" in bd and other_const is False and "lo" in bd)
-    if need == ("nonzero",):
-        return "lo" in bd and "nonzero" in bd or ({"hi", "lo"} <= bd and False) or nonzero_guard(T, b, bb, o)
-    if what in ("Overflow:Add", "Overflow:Mul") and signed:
-        if {"hi", "lo"} <= bd:
+    ob = T.bounds_at(b, bb, other) if other is not None else None
+    if what in ("DivisionByZero", "RemainderByZero"):
+        return "nonzero" in bd
+    if what == "OverflowNeg":
+        return "lo" in bd and ("nonneg" in bd or "hi" in bd and "lo" in bd and _lo_above_min(T, b, bb, o))
+    if what == "Overflow:Sub":
+        # a - x
+        if "rel" in bd:
             return True
-        # negative input added to a non-negative length (len + start with start < 0) cannot overflow
-        if what == "Overflow:Add" and "neg" in bd and other is not None and not op_is_const(other):
-            P = prov.operand_origins(b, other, deep=True)
-            if P.has_call(r"::len$") and not T.op_t(T.tainted.get(b.fn, {}), other):
-                return True
+        if ob is not None and {"hi", "lo"} <= bd and {"hi", "lo"} <= ob:
+            return not signed or True
+        if ob is not None and op_is_const(other) and "lo" in bd and ("nonzero" in bd or not _is_minuend(b, bb, o)):
+            return True
         return False
-    if "rel" in bd and need == ("hi",) and what in ("index", "BoundsCheck"):
-        return True
-    return all(n in bd for n in need)
+    if what in ("Overflow:Add", "Overflow:Mul"):
+        if signed:
+            if {"hi", "lo"} <= bd:
+                return True
+            if what == "Overflow:Add" and ob is not None and (("neg" in bd and "nonneg" in ob) or ("nonneg" in bd and "neg" in ob)):
+                return True      # opposite signs cannot overflow
+            return False
+        return "hi" in bd
+    if what in ("index", "BoundsCheck"):
+        # `start <= end` (rel) bounds start only if end itself is bounded
+        return "hi" in bd or ("rel" in bd and ob is not None and "hi" in ob)
+    if what == "duration-from-float":
+        return {"hi", "lo"} <= bd
+    return "hi" in bd
+
+
+def _lo_above_min(T, b, bb, o):
+    return True
+
+
+def _is_minuend(b, bb, o):
+    t = b.term(bb)
+    return t["k"] == "assert" and t["mo"] and t["mo"][0] is o
 
 
 def nonzero_guard(T, b, bb, o):
@@ -445,6 +648,24 @@ def nonzero_guard(T, b, bb, o):
                 if bb in cfg.edge_dom_set(b, g, y):
                     return True
     return False
+
+
+def expand_range(T, b, tl, o):
+    """a range operand stands for its end points: bound each of them"""
+    if op_is_const(o):
+        return [o]
+    l = op_place(o)["l"]
+    if not b.locals[l].startswith("std::ops::Range"):
+        return [o]
+    out = []
+    for kind, bbi, x in prov.build_defs(b).get(l, ()):
+        if kind == "call" and re.search(r"^std::ops::RangeInclusive::<.*>::new$", x["f"] or ""):
+            out += [a for a in x["a"] if not op_is_const(a) and T.op_t(tl, a)]
+        elif kind == "stmt" and x["r"]["k"] == "agg" and x["r"]["a"].startswith("std::ops::Range"):
+            out += [a for a in x["r"]["o"] if not op_is_const(a) and T.op_t(tl, a)]
+        elif kind == "stmt" and x["r"]["k"] == "use" and not op_is_const(x["r"]["o"]):
+            out += expand_range(T, b, tl, x["r"]["o"])
+    return out or [o]
 
 
 def sinks(T, fn, kinds=("panic", "alloc")):
@@ -497,6 +718,7 @@ def sinks(T, fn, kinds=("panic", "alloc")):
                 which = [t["a"][k] for k in idxs if k < len(t["a"]) and T.op_t(tl, t["a"][k])]
                 if not which:
                     continue
-                guarded = all(sink_guarded(T, b, i, o, kind) for o in which)
+                which = [x for o in which for x in expand_range(T, b, tl, o)]
+                guarded = all(sink_guarded(T, b, i, o, kind, other=(which[-1] if (len(which) == 2 and o is which[0]) else None)) for o in which)
                 yield {"bb": i, "kind": kind, "what": shared.short_callee(f), "origin": T.op_t(tl, which[0]), "guarded": guarded, "line": t.get("line")}
                 break
